@@ -802,6 +802,9 @@ class Deep:
     def c_option_zip(self, fr, st, a, site, cont):
         self._case(st, a[0], "o", self.OPT, site, lambda s, n, p: self._case(s, a[1], "o", self.OPT, site, lambda s2, n2, p2: cont(s2, self.some(("tuple", (p(), p2()))) if n2 == "Some" else self.NONE)) if n == "Some" else cont(s, self.NONE))
 
+    def c_option_flatten(self, fr, st, a, site, cont):
+        self._case(st, a[0], "o", self.OPT, site, lambda s, n, p: cont(s, p()) if n == "Some" else cont(s, self.NONE))
+
     def c_option_unwrap(self, fr, st, a, site, cont):
         self._case(st, a[0], "o", ("Some",), site, lambda s, n, p: cont(s, p()))
 
